@@ -95,6 +95,9 @@ func (c *SConf) Coq() string {
 	if c.Kind == "multi" {
 		kind = "TMulti"
 	}
+	if c.Kind == "inproc" {
+		kind = "TInproc"
+	}
 	return coqfmt.Record("sc_comp", coqfmt.Strs(c.Comp), "sc_enc", coqfmt.Strs(c.Enc), "sc_schemes", coqfmt.Strs(c.Schemes),
 		"sc_kind", kind, "sc_tls_ok", coqfmt.Bool(c.TLSOk), "sc_sid", coqfmt.Str("SID"))
 }
@@ -377,6 +380,9 @@ type scriptServer struct {
 	sid   string
 	runs  int
 	b64   bool // secrets travel base64-encoded (servers built by a ServerBuilder decode them)
+	// what the Established callback was handed last (both-real-roles cases)
+	estRemote int
+	estSID    string
 }
 
 // decoy makes the same Server (same configuration object) serve a connection over a transport with other
@@ -520,7 +526,13 @@ func (s *scriptServer) finishConfig(cfg *lime.ServerConfig, oracle *SOracle) {
 		}
 		return regNode(100 + from), nil
 	}
-	cfg.Established = func(sid string, c *lime.ServerChannel) { s.record(SCall{Kind: "est"}) }
+	cfg.Established = func(sid string, c *lime.ServerChannel) {
+		s.mu.Lock()
+		s.estRemote = tokOfNode(c.RemoteNode())
+		s.estSID = sid
+		s.mu.Unlock()
+		s.record(SCall{Kind: "est"})
+	}
 	cfg.Finished = func(sid string) { s.record(SCall{Kind: "fin"}) }
 	mux := &lime.EnvelopeMux{}
 	mux.MessageHandlerFunc(nil, func(ctx context.Context, m *lime.Message, snd lime.Sender) error {
